@@ -770,6 +770,11 @@ func sweepFamilies(quick bool, f func(u sweepUnit) bool) {
 			return
 		}
 	}
+	for _, fam := range allFamilies {
+		if !each(invalidUnits(fam, quick)) {
+			return
+		}
+	}
 }
 
 func replay(w *runner.W, raw json.RawMessage) {
@@ -817,8 +822,9 @@ func rule(prop, tier string) string {
 	fmt.Fprintf(&sb, "Wide states: every non-empty subset of the key pool {%s}, one sample per key, limits 0..8. ", qs(widePool))
 	fmt.Fprintf(&sb, "Laws: termscaler Scale/Bucket/LengthVal/ScaleKeys for linear, log2, log10 over (val,min,max) in G^3, |G|=%d including Min/MaxInt64; termunicode BarWrite/HeatWrite/SparkWrite over %d unit values x colour x unicode x max length {0,1,2,7,50}. ", len(gridValues(quick)), len(unitGrid()))
 	sp := sweepParams(quick)
-	fmt.Fprintf(&sb, "SIZE sweeps (signatures end in /size-family; S(max) = 0..70 and 2^k-1, 2^k, 2^k+1 for k >= 7 up to max; element i carries i: keys <i>, r<i>, s<i>, value i+1; rendered once at the end and once with an intermediate render at half of the samples): (a) n columns and n rows for n in S(%d): table/heatmap/spark with n columns (keys 0..n-1, row r, every third column also in row q) and with n rows (two columns), histogram and reduce with n keys, bargraph with n keys x 2 sub-keys, each with the limit of the swept dimension in {0,1,2,5,10,n-1,n,n+1} (the other limit 5), colour+unicode both on / both off, table with and without totals and with the expression format, heatmap linear+log2, spark linear and log10 --notruncate, histogram linear / log10 --sort text / expression format, bargraph stacked / grouped / grouped log10 with the expression format; the more-notes of heatmap (rows and columns) and spark (rows) must equal the number not shown for every such limit; (b) key length n in S(%d), n >= 1: a key of n visible runes of the kinds %v (multibyte = 2- and 3-byte runes; esc-wrapped = ESC[31m key ESC[0m; esc-inside = ESC[1;4m before every seventh rune, reset at the end) as column key and as row key next to one-rune keys, in every family, renders {end; after 1 sample and end; after 2 and end}; (c) value magnitude: every power of ten and every power of two, -1/+0/+1, both signs, MaxInt64, MinInt64 (%d values v) in states {v alone; v and 1; v and its neighbour in that list; v and -v} x every family x scale{linear,log2,log10} x format{default,expression} (bargraph also stacked; a bargraph row whose positive parts add up beyond MaxInt64 is not generated); (d) bargraph with n sub-keys (n stacked segments / n grouped bars per row) for n in S(%d), values all 1 / i+1 with a second row n-i / 1000 followed by ones, stacked x 4 colour-unicode settings, grouped, stacked with the expression format; with colour off and more than 16 segments only the total bar length is judged (the 16 segment characters repeat); (e) laws: BarWrite/HeatWrite/SparkWrite and BarWriteStacked for every maximum length in S(%d) x colour x unicode (BarWriteStacked over %d value vectors: small shapes and, around every positive magnitude v, {v}, {v,v-1}, {v/2,v-v/2}, {1,v/3,1,v/3}, with the maximum = this vector's positive sum, twice it, MaxInt64: total cells <= maximum length, segments monotone in their values); termscaler Scale/Bucket/LengthVal with every magnitude as val, for (min,max) in {MinInt64,-1,0,1} x magnitudes and magnitudes x {MaxInt64, 0, min+1} (%d ranges), and for min = 0 < max every number of buckets 1..70,127..129,255..257 and every maximum length 0..70,127..129,255..257. ", sp.maxDim, sp.maxKeyLen, keyKinds, len(magGrid), sp.maxSegs, sp.maxBarLen, len(stackedVecs), len(magPairs()))
+	fmt.Fprintf(&sb, "SIZE sweeps (signatures end in /size-family; S(max) = 0..70 and 2^k-1, 2^k, 2^k+1 for k >= 7 up to max; element i carries i: keys <i>, r<i>, s<i>, value i+1; rendered once at the end and once with an intermediate render at half of the samples): (a) n columns and n rows for n in S(%d): table/heatmap/spark with n columns (keys 0..n-1, row r, every third column also in row q) and with n rows (two columns), histogram and reduce with n keys, bargraph with n keys x 2 sub-keys, each with the limit of the swept dimension in {0,1,2,5,10,n-1,n,n+1} (the other limit 5), colour+unicode both on / both off, table with and without totals and with the expression format, heatmap linear+log2, spark linear and log10 --notruncate, histogram linear / log10 --sort text / expression format, bargraph stacked / grouped / grouped log10 with the expression format; the more-notes of heatmap (rows and columns) and spark (rows) must equal the number not shown for every such limit; (b) key length n in S(%d), n >= 1: a key of n visible runes of the kinds %v (multibyte = 2- and 3-byte runes; esc-wrapped = ESC[31m key ESC[0m; esc-inside = ESC[1;4m before every seventh rune, reset at the end; invalid-utf8 = ASCII with every third position an undecodable byte, cycling through 0xB0 0xE9 0xFF 0x80 0xC3 0xF0 0xA0, each followed by ASCII, one column each) as column key and as row key next to one-rune keys, in every family, renders {end; after 1 sample and end; after 2 and end}; (c) value magnitude: every power of ten and every power of two, -1/+0/+1, both signs, MaxInt64, MinInt64 (%d values v) in states {v alone; v and 1; v and its neighbour in that list; v and -v} x every family x scale{linear,log2,log10} x format{default,expression} (bargraph also stacked; a bargraph row whose positive parts add up beyond MaxInt64 is not generated); (d) bargraph with n sub-keys (n stacked segments / n grouped bars per row) for n in S(%d), values all 1 / i+1 with a second row n-i / 1000 followed by ones, stacked x 4 colour-unicode settings, grouped, stacked with the expression format; with colour off and more than 16 segments only the total bar length is judged (the 16 segment characters repeat); (e) laws: BarWrite/HeatWrite/SparkWrite and BarWriteStacked for every maximum length in S(%d) x colour x unicode (BarWriteStacked over %d value vectors: small shapes and, around every positive magnitude v, {v}, {v,v-1}, {v/2,v-v/2}, {1,v/3,1,v/3}, with the maximum = this vector's positive sum, twice it, MaxInt64: total cells <= maximum length, segments monotone in their values); termscaler Scale/Bucket/LengthVal with every magnitude as val, for (min,max) in {MinInt64,-1,0,1} x magnitudes and magnitudes x {MaxInt64, 0, min+1} (%d ranges), and for min = 0 < max every number of buckets 1..70,127..129,255..257 and every maximum length 0..70,127..129,255..257. ", sp.maxDim, sp.maxKeyLen, keyKinds, len(magGrid), sp.maxSegs, sp.maxBarLen, len(stackedVecs), len(magPairs()))
 	sb.WriteString("HISTORY (signatures end in /history-family): ONE long-lived renderer instance on one terminal rendered after every sample (and: after every second sample) of a history in which the aggregated state grows AND shrinks, judged after EVERY render (one case per prefix): table/heatmap/spark: a table filled column by column (time series; the row with the largest cells exists only in the first three columns, a row with a 30-rune key only in columns 1..3, one row in every column, one from column 4 on; with a column limit the spark command's Trim drops old columns, so rows disappear, the maximum decreases and the longest key goes away), the same with the columns arriving in decreasing order, and a 15-sample up-and-down history with negative increments (maxima decrease, cells and rows return to zero, orders change); histogram, reduce, bargraph: a 15-sample up-and-down history (counts go to zero and below, a long key comes and goes, an 8-digit value shrinks to one digit). Every such case also with a SECOND renderer instance of the same family (own terminal and aggregator, other keys, a longer key, larger values) doing a complete run before every render of the judged one. Oracle: the oracles of the family on the judged render, and for table/heatmap/spark additionally the DIFFERENTIAL: the data lines (above the footer, blank lines left out, runs of blanks squeezed) must equal those a fresh renderer on a fresh terminal draws for the same aggregator state (no row of an earlier state left on screen, no cell, number, header or more-note computed from an earlier state). ")
+	fmt.Fprintf(&sb, "INVALID UTF-8 (signatures end in /invalid-utf8-family; alignment signatures carry the key class invalid-utf8-in-key): keys and cells that are not valid UTF-8, every byte that is not part of a valid sequence counting as ONE column: %d keys {%s} of the classes %v (a lone continuation byte 0x80/0xA0/0xBF; a lone lead byte 0xC3/0xE2/0xF0; a truncated 2-, 3-, 4-byte sequence at the end and in the middle of a key; the overlong encoding 0xC0 0xAF; 0xFF/0xFE; Latin-1 text; mixed with valid 2- and 3-byte runes; inside ESC[31m..ESC[0m). States (%d key lists): each such key alone, next to each of {%s} in both orders of arrival (so it is the longest and a shorter key, first and last), between a one-rune and an eight-rune key in both orders, every ordered pair of two such keys%s. Every state in every family and position: table/heatmap/spark as column keys and as row keys (two cells per key), histogram keys, bargraph row keys and sub-keys, reduce group keys and data cells (the accumulator last={2} shows the text itself); rendered at the end, and with one intermediate render after every proper prefix of the keys; colour+unicode both on / both off; table with totals and with the expression format and 2 columns, heatmap and spark with limits (5,5) and (2,2), histogram with bars, with the expression format under --sort text, and -n 2 without bars, bargraph stacked and grouped, reduce with limits (5,5) and (3,2). ", len(badKeys), qs(badKeyList()), badKeyClasses(), len(invalidStates(quick)), qs(badCompanions), map[bool]string{true: "", false: "; every pair of two such keys together with the eight-rune key, the latter in the middle and last"}[quick])
 	sb.WriteString("non-trivial = the final render displayed at least one data row (and one column for the table families); for laws: at least three distinct scaled values / bar lengths")
 	return sb.String()
 }
@@ -835,6 +841,7 @@ func main() {
 				"only call patterns the commands produce are driven (e.g. HistoWriter.WriteForLine is never called with line == number of items; a scale is never combined with --stacked; row/column limits are >= 0)",
 				"judged are the lines the final render is responsible for (rows 0..n-1 of the displayed items, headers, more-notes); lines left over from an earlier render with more rows are not judged, except by the differential of the history family (table, heatmap, spark), where a data line of an earlier state that is still on screen is a finding",
 				"visible width = runes outside SGR sequences (ESC [ digits ; m); double-width glyphs are not covered",
+				"text that is not valid UTF-8: every byte that is not part of a valid UTF-8 sequence occupies ONE column (a terminal shows one replacement glyph for it; Go's rune decoding yields one utf8.RuneError per such byte, which is what the unchanged renderers and fmt's padding count); so the two bytes of a truncated 3-byte sequence are two columns. A terminal that draws one glyph for a whole truncated sequence, or nothing for such bytes, is not covered. The oracle reads a raw undecodable byte and U+FFFD in its place as the same visible cell (a renderer may pass the byte through or substitute U+FFFD)",
 				"the default formatter's text is taken from humanize.Hi itself (its correctness is C11); the expression formatter <{0}|{1}|{2}> is compared with an independent decimal rendering of (value, min, max): for tabulate and spark min/max must be the table's ComputeMinMax of the rendered state; for histogram and bargraph every judged line of the final render must have been formatted with the same (min, max) and max must not be below a displayed value (the renderers pass 0 and a running maximum that never decreases; how often it differs from the final maximum is counted, not judged)",
 				"row/column order is taken from the aggregator's Ordered*/ItemsSorted* calls with the command's default sorters (ordering is C13)",
 				"between two renders the aggregators fold commutatively, so only one order of the samples of a segment is executed",
